@@ -60,6 +60,18 @@ def select (mods : List Module) (lkm excl : List String) (partialArg : Option St
     if isLkm then .ok (mods.filter (fun m => lkm.contains m.name))
     else .ok (mods.filter (fun m => excl.all (fun x => m.name != x)))
 
+/-- `RuntimeMemoryImage::new(binary).is_lkm`: only the ET_REL branch (`from_elf_sections`) can set it, to
+the conjunction "every marker section exists" (`get_section(a).is_some() && get_section(b).is_some()`,
+section names generated from the source); ET_EXEC/ET_DYN (`from_elf_segments`) set `false`.
+`etype` ∈ {"rel", "exec", "dyn"}, `sections` = the section names of the ELF file. -/
+def isKernelModule (etype : String) (sections : List String) : Bool :=
+  etype == "rel" && Gen.Modules.lkmMarkerSections.all (fun m => sections.contains m)
+
+/-- SPECIFICATION of "the input is a Linux kernel module": a relocatable object that has BOTH the
+`.modinfo` and the `.gnu.linkonce.this_module` section (what `modpost` puts into every `.ko`). -/
+def specIsKernelModule (etype : String) (sections : List String) : Bool :=
+  etype == "rel" && sections.contains ".modinfo" && sections.contains ".gnu.linkonce.this_module"
+
 /-- the selection of the real tables -/
 def selectReal (partialArg : Option String) (isLkm : Bool) : Except String (List Module) :=
   select allModules Gen.Modules.modulesLkm Gen.Modules.defaultExcluded partialArg isLkm
